@@ -69,6 +69,12 @@ func (c customImage) ColorModel() color.Model { return color.GrayModel }
 func (c customImage) Bounds() image.Rectangle { return c.g.Bounds() }
 func (c customImage) At(x, y int) color.Color { return c.g.At(x, y) }
 
+type customAlphaImage struct{ g *image.NRGBA }
+
+func (c customAlphaImage) ColorModel() color.Model { return color.NRGBAModel }
+func (c customAlphaImage) Bounds() image.Rectangle { return c.g.Bounds() }
+func (c customAlphaImage) At(x, y int) color.Color { return c.g.At(x, y) }
+
 type world17 struct {
 	src     [c17Slots]gozxing.LuminanceSource
 	mod     [c17Slots]*viewModel
@@ -332,6 +338,24 @@ func (w *world17) step(op Op17, probe func(string)) (f *fail17, skipped bool) {
 			}
 			img = g
 		default:
+			if op.V&8 != 0 {
+				// a custom image type (only image.Image) with transparent pixels:
+				// the generic colour path must blend them to white too
+				g := image.NewNRGBA(image.Rect(0, 0, op.W, op.H))
+				for y := 0; y < op.H; y++ {
+					for x := 0; x < op.W; x++ {
+						if r.Chance(1, 5) {
+							g.SetNRGBA(x, y, color.NRGBA{byte(r.Intn(256)), byte(r.Intn(256)), byte(r.Intn(256)), 0})
+							px[y][x] = 255
+						} else {
+							g.SetNRGBA(x, y, color.NRGBA{px[y][x], px[y][x], px[y][x], 255})
+						}
+					}
+				}
+				probe("probe.custom_image_with_alpha")
+				img = customAlphaImage{g}
+				break
+			}
 			g := image.NewGray(image.Rect(0, 0, op.W, op.H))
 			for y := 0; y < op.H; y++ {
 				for x := 0; x < op.W; x++ {
